@@ -14,6 +14,14 @@ CHECKS = {
          "All 3 912 881 reachable states of the civil-calendar successor machine (-4712..6000) are enumerated and each is replayed on the implementation (JDE, read-back, unit step), plus every rejected transition (day 0 / day L+1 of every month) and every month spelling; the quantifier domain is finite and covered completely.",
          "Trusts the 60-line reference model of the calendar rules (cross-checked by an independently written TLA+ model in the thorough tier) and float equality on half-integers.",
          "DESIGN.md 3/C01"),
+ "C02": (MC, "breadth-first search over operator histories on real Epoch objects against exact-rational reference (depth 3-4), plus full product of boundary-instant lattice x input forms",
+         "Every operator/operand event sequence up to depth 3 (4 with the reduced operand set) from 6 initial epochs is executed on real Epoch objects and compared with exact Fractions on every transition; all ordered pairs of reached states are compared; the JDE lattice (every month start of the boundary years x second offsets x +-2 ulp) and the instant x form product are covered completely.",
+         "Real-valued quantifier: verdict holds on the stated lattice (every constant and seam of the anchored code has points on both sides at +-1..2 ulp); calendar reference model of C01.",
+         "DESIGN.md 3/C02"),
+ "C16": (MC, "explicit-state enumeration of the calendar successor machine with weekday and day-of-year counters, every state replayed on Epoch; exhaustive JDE lattice for sidereal time; TLC second model in the thorough tier",
+         "All 3 912 881 states (y,m,d,n,w,doy) are replayed on dow/get_doy/doy/doy2date/year/leap with fractional days; the integer-valued part of the property is covered completely; sidereal time is compared with the IAU 1982 expression in exact rationals at every lattice point.",
+         "Trusts the reference calendar model (cross-checked by TLA+/TLC) and the rational evaluation of Meeus (12.4); sidereal clauses hold on the lattice, not on all reals.",
+         "DESIGN.md 3/C16"),
 }
 
 NOT_YET = {}
